@@ -76,7 +76,7 @@ pub struct Scenario {
     pub common: Option<BTreeMap<String, String>>,
 }
 
-const NAMES: &[&str] = &["a", "a_b", "ab", "a_total", "b", "a_b_c", "aa", "z", "b_a"];
+const NAMES: &[&str] = &["a", "a_b", "ab", "a_total", "b", "a_b_c", "aa", "z", "b_a", "c", "total"];
 const HELPS: &[&str] = &["h", "help b", "é"];
 const CNAMES: &[&str] = &["c", "a", "zz", "k"];
 const VNAMES: &[&str] = &["b", "l", "y", "aa"];
@@ -145,10 +145,14 @@ pub fn gen_scenario(src: &mut Src, allow_mixed: bool) -> Scenario {
             colls.push(CollSpec { kind: k, name: name.to_string(), help: help.clone(), consts, vars: vnames.clone(), children });
         }
     }
-    let prefix = match src.below(3) {
-        0 => None,
-        1 => Some("p".to_string()),
-        _ => Some("ns:x_1".to_string()),
+    // prefixes include strings that are themselves the head of other metric names in the pool, so that
+    // "<prefix>_<x>" and an unprefixed "<prefix>_<x>" meet (a / a_b / a_total, a_b / a_b_c)
+    let prefix = match src.below(6) {
+        0 | 1 => None,
+        2 => Some("p".to_string()),
+        3 => Some("ns:x_1".to_string()),
+        4 => Some("a".to_string()),
+        _ => Some("a_b".to_string()),
     };
     let ncommon = src.below(5);
     let common = if ncommon == 0 && src.chance(128) {
